@@ -23,6 +23,11 @@
 (*        not list; FALSE: the conversion used by record() is total over   *)
 (*        the value types pywbem itself produces (ValueShapes of a reply)  *)
 (*        or is handed by its caller (ArgShapes)                           *)
+(*   ResultBoundAfterValidationOnly TRUE: an operation method binds the    *)
+(*        variable its finally block hands to stage_pywbem_result only     *)
+(*        AFTER its own argument validation (inside the try block): a      *)
+(*        locally rejected argument plus any recorder (test client or log  *)
+(*        recorder) raises UnboundLocalError in the finally block          *)
 (*                                                                         *)
 (* Value universe of the conversion (what record() is given):              *)
 (*   ArgShapes  - shape of the operation's arguments                       *)
@@ -36,6 +41,15 @@
 (*                         arbitrary object where a name, list, bool, CIM  *)
 (*                         value is expected): the bare outcome is the     *)
 (*                         validation exception, raised before sending     *)
+(*     "rejected_none" / "rejected_count" / "rejected_flag": a value of a  *)
+(*                         LISTED type the operation's own validation      *)
+(*                         rejects because of WHERE it stands: None for a  *)
+(*                         required argument, a negative / non-integer     *)
+(*                         count or timeout, a non-boolean flag.  The      *)
+(*                         binding generates them for EVERY operation      *)
+(*                         method from its signature (the case distinction *)
+(*                         of the operations' prologue: one validation     *)
+(*                         helper per parameter kind)                      *)
 (*   reply class "ok_untyped_real_key": a success whose parsed result      *)
 (*     holds a plain float (KEYVALUE VALUETYPE="numeric" without TYPE      *)
 (*     holding a real / INF is parsed into float, not Real32/Real64)       *)
@@ -43,27 +57,32 @@
 EXTENDS Naturals, Sequences, FiniteSets, TLC
 
 CONSTANTS TruncateBytesThenDecode, StopTimerNeedsFloat,
-          RecorderConversionPartial
+          RecorderConversionPartial, ResultBoundAfterValidationOnly
 
 Details == {"none", "all", "paths", "summary", "int"}
 Responses == {"ok_ascii", "ok_multibyte_cut_inside", "ok_multibyte_cut_between",
               "ok_untyped_real_key",
               "cimerror", "parseerror", "httperror", "connerror"}
-ArgShapes == {"listed", "plain_float", "iterable_not_list", "rejected"}
+RejectedShapes == {"rejected", "rejected_none", "rejected_count",
+                   "rejected_flag"}
+ArgShapes == {"listed", "plain_float", "iterable_not_list"} \cup RejectedShapes
+Rejected(a) == a \in RejectedShapes
 SrvTimes == {"absent", "numeric", "garbage"}
 
 VARIABLES cfg, resp, srvtime, arg, pc, outcome, bareOutcome, counted, hookRaised
 vars == <<cfg, resp, srvtime, arg, pc, outcome, bareOutcome, counted,
           hookRaised>>
 
-Core(r, a) == IF a = "rejected" THEN "argerror"   \* local validation exception
+Core(r, a) == IF Rejected(a) THEN "argerror"   \* local validation exception
               ELSE IF r \in {"ok_ascii", "ok_multibyte_cut_inside",
                              "ok_multibyte_cut_between", "ok_untyped_real_key"}
                    THEN "value"
               ELSE r       \* the exception family of the response class
 
 (* the types toyaml() lists *)
-ListedByToyaml(a) == a = "listed"
+ListedByToyaml(a) == a \in {"listed", "rejected_none", "rejected_count",
+                            "rejected_flag"}
+AnyRecorder(c) == c.recorder \/ c.api # "none" \/ c.http # "none"
 ResultHoldsPlainFloat(r, a) == Core(r, a) = "value" /\ r = "ok_untyped_real_key"
 
 Hooks == <<"stage_pywbem_args", "start_timer", "stage_http_request",
@@ -75,17 +94,20 @@ HookRaises(h, c, r, t, a) ==
   \/ /\ h = "stage_http_response2" /\ TruncateBytesThenDecode
      /\ c.http = "int" /\ r = "ok_multibyte_cut_inside"
   \/ /\ h = "stop_timer" /\ StopTimerNeedsFloat
-     /\ c.stats /\ t = "garbage" /\ r # "connerror" /\ a # "rejected"
+     /\ c.stats /\ t = "garbage" /\ r # "connerror" /\ ~Rejected(a)
   \* stage_pywbem_result -> record(): toyaml(arguments), toyaml(result)
   \/ /\ h = "stage_pywbem_result" /\ RecorderConversionPartial /\ c.recorder
      /\ (~ListedByToyaml(a) \/ ResultHoldsPlainFloat(r, a))
+  \* finally: stage_pywbem_result(result, exc) with `result` still unbound
+  \/ /\ h = "stage_pywbem_result" /\ ResultBoundAfterValidationOnly
+     /\ AnyRecorder(c) /\ Rejected(a)
 Reached(h, r, a) ==
   \* hooks after the response are skipped on connection errors; a rejected
   \* argument leaves the try block before anything is sent (the finally
   \* block still stops the timer and stages the result)
   /\ ~(r = "connerror" /\ h \in {"stage_http_response1", "stage_http_response2"})
-  /\ ~(a = "rejected" /\ h \in {"stage_http_request", "stage_http_response1",
-                                 "stage_http_response2"})
+  /\ ~(Rejected(a) /\ h \in {"stage_http_request", "stage_http_response1",
+                               "stage_http_response2"})
 
 Init == /\ cfg \in [api : Details, http : Details, stats : BOOLEAN,
                     recorder : BOOLEAN, debug : BOOLEAN]
